@@ -26,7 +26,8 @@ Definition hi32 (x : Z) : Z := x / W32.
 
 Inductive arch := GCN3 | CDNA3.
 Inductive format := F_SOP2 | F_SOP1 | F_SOPC | F_SOPK | F_SOPP
-                  | F_VOP2 | F_VOP1 | F_VOPC | F_VOP3A | F_VOP3B | F_OTHER.
+                  | F_VOP2 | F_VOP1 | F_VOPC | F_VOP3A | F_VOP3B | F_OTHER
+                  | F_SMEM | F_FLAT | F_DS.
 
 (** An instruction as the decoder delivers it: operand fields are the
     architectural operand codes (0-101 SGPR, 106/107 VCC halves, 124 M0,
